@@ -7,54 +7,67 @@ STREAMS = [streams_cavity.OPS, streams_cavity.BAD, streams_cavity.VALID,
 
 EXPLANATION = (
     'Proved in Lean for the executable model of the cavity machine of src/ref_cavity.c, for every abelian group G '
-    'and every alternating phi : Node^3 -> G (so for the free chain group: "every interior face is covered once '
-    'from each side" at chain level): (a) insertFace_sum / insertFace_chain / insertFace_chain_fresh - '
-    'ref_cavity_insert_face changes the sum over live faces by exactly phi(f) (append, or cancellation of the '
-    'reversed face; the only other outcome is REF_INVALID with the cavity unchanged), hence after any sequence of '
-    'ref_cavity_add_tet that ends with status ok and state unknown the live face list is the signed boundary of '
-    'tet_list; (b) replace_conforming / cavity_replace_conforming - when ref_cavity_verify_face_manifold passed, '
-    'the tets ref_cavity_replace creates (live face + cavity node, attached faces skipped) have the same signed '
-    'boundary as the tets it removes, the side faces phi(a,n,b) cancelling pairwise because each directed side has '
-    'exactly one reversed partner (Finset.sum_involution); replace_star_two_sided - every side triangle {a,b,node} of '
-    'the new star is shared by exactly two cone cells; replace_volume - with phi_p(f) = tetVol(f,p) over the reals '
-    '(cone4 on the regenerated f2n table) the total volume of the new tets equals the total volume of the removed '
-    'tets exactly, wherever the cavity node lies; newTet_volume - the volume of each new tet is the number '
-    'ref_cavity_visible compares with min_volume. Valid3/Valid2 are the executable statement of C01 (positive '
-    'volumes, each unordered face in two cells or one cell + one boundary element and vice versa, boundary closed '
-    'and manifold, every vertex used, numbering contiguous). '
+    'and every alternating phi : Node^3 -> G (chain-level conformity: "every interior face is covered once from '
+    'each side, every boundary face is matched by one tri"). '
+    '(a) insertFace_sum / insertFace_chain / insertFace_chain_fresh: ref_cavity_insert_face changes the sum over '
+    'live faces by exactly phi(f) (append, or cancellation of the reversed face; otherwise REF_INVALID, cavity '
+    'unchanged), so after any ref_cavity_add_tet sequence ending with status ok / state unknown the live face list is '
+    'the signed boundary of tet_list. '
+    '(b) replace_conforming / cavity_replace_conforming: when ref_cavity_verify_face_manifold passed, the tets '
+    'ref_cavity_replace creates (live face + node, attached faces skipped) have the same signed boundary as the tets '
+    'it removes (side faces cancel pairwise, Finset.sum_involution); replace_star_two_sided: every side triangle of '
+    'the new star is shared by exactly two cone cells. '
+    'Grid level: replace_grid_multiset - on the success path of the model of ref_cavity_replace the live tets are '
+    'before - listed + newTets and the live tris before - listed + newTris as multisets (blank-chain invariant '
+    'GridInv preserved); replace_mesh_conforming - one cavity operation leaves meshBd phi = sum_tets d(phi) - '
+    'sum_tris phi unchanged and keeps the tris; cavity_history_conforming - so does any finite chain of successful '
+    'cavity replacements (induction over CavHistory). '
+    'Volumes: replace_volume (sum of new tet volumes = sum of removed, exactly, over the reals, any node position; '
+    'cone4 on the regenerated f2n table), newTet_volume, visible_positive / visible_positive_real: if '
+    'ref_cavity_check_visible moved the cavity from unknown to visible, every tet replace will create has valid nodes '
+    'and volume > min_volume = 1e-15 > 0. '
+    '2-D: insertSeg_sum, insertSeg_chain (live segs = signed boundary of tri_list after add_tri), '
+    'replace_conforming_2d / cavity_replace_conforming_2d (new tris have the signed boundary of the removed tris '
+    'because the seg list is a boundary, dd = 0 - the seg verification is one-directional and is not what gives '
+    'conformity), replace_area (total signed area conserved exactly). '
+    'Validity: Valid3 / Valid2 are the executable statement of C01; valid3_signedConforming: with the combinatorial '
+    'orientation clause valid3Orient (signed multiplicity of every unordered face is zero) the mesh is '
+    'SignedConforming for every G, phi. '
     'Tie: h_cavity calls the real ref_cavity_create / form_empty / add_tet / add_tri / insert_face / insert_seg / '
     'find_face / check_visible / form_edge_split / form_edge_collapse / replace and (white-box) the static '
-    'ref_cavity_verify_face_manifold / verify_seg_manifold on grids built in process; the f2n/s2n arrays are compared '
-    'slot by slot including blank rows and the blank chain, tet_list/tri_list in push order, state and status after '
-    'every op, and the grid (sorted cells, live nodes) after replace, also for chains of cavities on the same grid '
-    '(slot reuse in ref_cell / ref_node) and for error returns that leave a partially modified grid; Valid3 is '
-    'compared clause by clause with ref_validation_cell_volume / cell_face / boundary_manifold / unused_node on '
-    'valid and damaged meshes. Python oracles on the implementation output (exact rationals): after each '
-    'successful replace on a conforming grid every face is in two tets or one tet + one tri, the signed boundary '
-    'chain is zero, total volume is conserved exactly when only tets change, every new tet of a cavity that passed '
-    'check_visible has volume > 1e-15. End-to-end: `ref adapt` / `refmpi adapt` on generated 2-D and 3-D meshes x '
-    'metrics x pass counts (0 and 1 always present in cli_adapt_passes01), output judged by the independent C01 '
-    'validity oracle.')
+    'verify_face_manifold / verify_seg_manifold on grids built in process; f2n/s2n compared slot by slot incl. blank '
+    'rows and the blank chain, tet_list/tri_list in push order, state and status after every op, the grid after '
+    'replace, chains of cavities on one grid, error returns that leave a partially modified grid; Valid3 compared '
+    'clause by clause with ref_validation_cell_volume / cell_face / boundary_manifold / unused_node, the orientation '
+    'clause with an independent C evaluation over ref_cell_f2n, on valid and damaged meshes. Python oracles on the '
+    'implementation output (exact rationals): after each successful replace on a conforming grid every face is in two '
+    'tets or one tet + one tri, the signed boundary chain is zero (tris oriented like the tet face they close), '
+    'volume conserved exactly when only tets change, every new tet of a visible cavity has volume > 1e-15. '
+    'End-to-end: `ref adapt` / `refmpi adapt` on generated 2-D and 3-D meshes x metrics x pass counts (0 and 1 always '
+    'present; strongly anisotropic 2-D requests included), output judged by the independent C01 validity oracle.')
 
 ASSUMPTIONS = [
-    'operators whose conformity is PROVED: the cavity replace (this package: cavity_replace_conforming, '
-    'replace_volume, for tet cavities built with add_tet; also every cavity formed by form_edge_split / '
-    'form_edge_collapse / enlarge_* is covered by replace_conforming as soon as its face list is non-degenerate and '
-    'the verification passed); edge split and 2-D edge swap by the meshops package (Props/C13). '
-    'Only TIED (differential execution + oracles), not proved: collapse by substitution (ref_collapse_edge), node '
-    'smoothing, the pass drivers and their selection order, the 3-D boundary bookkeeping between tris, segs and '
-    'seg-faces (ref_cavity_add_seg_face / remove_seg_face / remove_seg_add_tets / add_tet_without_faceid), the '
-    'enlarge_* loops, cavity_ratio / cavity_change acceptance tests, final numbering, readers/writers',
-    'the signed theorems do not exclude a double cover (a face covered +2 and -2 times sums to zero as well): the '
-    'unsigned statement is replace_star_two_sided for the side triangles of the new star plus the Valid oracle on '
-    'real runs; geometric non-overlap of the new star is what ref_cavity_visible checks per new tet '
-    '(volume > 1e-15), in floating point',
-    'IEEE rounding in ref_node_tet_vol is modelled (Float instance, bit-compared), not verified: replace_volume '
-    'holds in exact real arithmetic',
+    'operators whose conformity is PROVED: the cavity replace for tet cavities built with add_tet (this package, up '
+    'to whole histories: cavity_history_conforming) and for 2-D tri cavities built with add_tri; edge split and 2-D '
+    'edge swap by the meshops package (Props/C13). Only TIED (differential execution + oracles), not proved: '
+    'collapse by substitution (ref_collapse_edge), node smoothing, the pass drivers and their selection order, the '
+    '3-D boundary bookkeeping between tris, segs and seg-faces (ref_cavity_add_seg_face / remove_seg_face / '
+    'remove_seg_add_tets / add_tet_without_faceid: CavStep requires tri_list and the seg list to be empty), the '
+    'enlarge_* loops, form_edge_split/collapse (modelled and tied; covered by replace_conforming once their face '
+    'list is non-degenerate and verified, but not by the history theorem), cavity_ratio / cavity_change acceptance '
+    'tests, final numbering, readers/writers',
+    'valid3_signedConforming takes the orientation clause valid3Orient as an explicit hypothesis: Valid3 as coded '
+    'counts unordered faces; that the two cells of a face see it with opposite orientation follows from positive '
+    'volumes only geometrically (not proved). refine`s own ref_validation_* do not test tri orientation at all '
+    '(a flipped boundary tri passes cell_volume, cell_face, boundary_manifold, unused_node)',
+    'the signed theorems do not exclude a double cover (+2 and -2 cancel): the unsigned statement is '
+    'replace_star_two_sided for the side triangles of the new star plus the Valid oracle on real runs; geometric '
+    'non-overlap of the new star is what ref_cavity_visible checks per new tet (visible_positive), in floating point',
+    'IEEE rounding in ref_node_tet_vol / ref_node_tri_normal is modelled (Float instance, bit-compared), not '
+    'verified: replace_volume, replace_area, visible_positive_real hold in exact real arithmetic',
     'ref_cavity_verify_seg_manifold only checks that the END node of each live seg is the START of exactly one '
-    'live seg; the 2-D analogue of replace_conforming does not follow from that check alone (segs (a,v),(b,v),(v,a) '
-    'pass) - it follows from the seg list being a boundary (dd=0); not proved here, the 2-D cavity is tied and '
-    'covered by the oracles',
+    'live seg (segs (0,9),(1,9),(9,0) pass - example in Props/C01); 2-D conformity is therefore proved from the seg '
+    'list being a boundary, not from that check',
     'serial harness: every node is owned unless the stream marks it with `ghost` (then the '
     'REF_CAVITY_PARTITION_CONSTRAINED returns are reached); ref_geom (CAD) is absent, pyramids/prisms are absent '
     '(the MANIFOLD_CONSTRAINED early return of form_edge_* is not reached); node ids passed to insert_face / '
